@@ -6,6 +6,8 @@
     marshal <desc>     -> hex bytes | "err"
     marshalc <cdesc>   -> hex bytes | "err"              (value graphs with functions, funcdefs, environments; Code.lean)
     unmarshalc <hex>   -> "ok <consumed> <cdesc>" | "err"
+    reasm <hex of a 32-bit instruction word, big endian>  -> "ok <hex of encode (decode w)> <opcode number> <args…>" | "noop" (not an
+                         instruction of the table) | "err" (the assembler model rejects what the disassembler model produced)
     chanhook <threaded> <closed> <limit> <val>*   -> hex of what janet_chanat_marshal appends (hook protocol, Abstract.lean)
     chanread <hex>     -> "ok <consumed> <threaded> <closed> <limit> <val>*" | "err"   (janet_chanat_unmarshal on those bytes)
   <cdesc> = <val> { "|" <cobj> } "#" [ <def> { "|" <def> } ] "#" [ <env> { "|" <env> } ]
@@ -28,6 +30,7 @@ import JanetModel.Marsh.Graph
 import JanetModel.Marsh.Code
 import JanetModel.Marsh.Abstract
 import JanetModel.Asm.Operand
+import JanetModel.Asm.Instr
 open Driver JanetModel.Marsh
 
 def dropFirst (s : String) (k : Nat) : String := String.ofList (s.toList.drop k)
@@ -378,6 +381,17 @@ def step (_ : Unit) (toks : List String) : Unit × String :=
       | some bs => ((), hexOfBytes bs)
       | none => ((), "err")
     | none => ((), "bad-op")
+  | ["reasm", h] =>
+    match bytesOfHex h with
+    | some [b3, b2, b1, b0] =>
+      let w := b3 * 16777216 + b2 * 65536 + b1 * 256 + b0
+      match JanetModel.Asm.decode w with
+      | none => ((), "noop")
+      | some (op, args) =>
+        match JanetModel.Asm.encode op args with
+        | some w' => ((), "ok " ++ hexByte (w' / 16777216) ++ hexByte (w' / 65536) ++ hexByte (w' / 256) ++ hexByte w' ++ s!" {op.toNat}" ++ showInts args)
+        | none => ((), "err")
+    | _ => ((), "bad-op")
   | "chanhook" :: th :: cl :: lim :: vals =>
     match th.toNat?, cl.toNat?, lim.toInt?, parseVals vals with
     | some t, some c, some l, some vs =>
